@@ -1,28 +1,17 @@
 #!/bin/bash
 # selftest: every patch under mutants/<prop>/ and seeded/<prop>/*/patch.diff must make `check <prop>` report a VIOLATION.
-# Usage: ./selftest.sh [prop ...]    (default: all). Scratch copies live under $TMPDIR and are removed at once.
+# Usage: ./selftest.sh [prop ...]    (default: all). Up to $SELFTEST_JOBS (default 4) changes are tried side by side,
+# each on its own scratch copy under $TMPDIR (removed at once). Exit 1 if any change is MISSED.
 cd "$(dirname "$0")"
-export PATH=/opt/veriftools/go1.26.8/bin:$PATH GOFLAGS=-mod=mod GOPROXY=off GOSUMDB=off GOTOOLCHAIN=local
 props="$@"; [ -z "$props" ] && props=$(ls mutants seeded 2>/dev/null | grep '^C' | sort -u)
-fail=0
+list=$(mktemp "${TMPDIR:-/tmp}/cedarvc-selftest-XXXXXX")
 for p in $props; do
   for patch in mutants/$p/*.patch seeded/$p/*/patch.diff; do
-    [ -f "$patch" ] || continue
-    d=$(mktemp -d "${TMPDIR:-/tmp}/cedarvc-mut-XXXXXX")
-    rsync -a --exclude .git /repo/ "$d/repo/"
-    if ! (cd "$d/repo" && patch -p1 -s --fuzz=3 < "/verif/$patch" >/dev/null 2>&1); then
-      echo "SKIP  $p $patch (does not apply)"; rm -rf "$d"; continue
-    fi
-    if ! (cd "$d/repo" && go build ./... >/dev/null 2>&1); then
-      echo "SKIP  $p $patch (does not build)"; rm -rf "$d"; continue
-    fi
-    out=$(CEDAR_FAILFAST=1 CEDAR_REPO="$d/repo" CEDAR_OUT="$d/out" bin/cedarvc check -prop "$p" 2>&1); rc=$?
-    if [ $rc -eq 1 ] && echo "$out" | grep -q "^VIOLATION property=$p"; then
-      echo "CAUGHT $p $patch :: $(echo "$out" | grep 'failed obligation' | sed 's/ \[.*//' | tr '\n' ';' | cut -c1-300)"
-    else
-      echo "MISSED $p $patch (exit $rc)"; fail=1
-    fi
-    rm -rf "$d"
+    [ -f "$patch" ] && echo "$p $patch" >> "$list"
   done
 done
-exit $fail
+out=$(xargs -a "$list" -P "${SELFTEST_JOBS:-4}" -n 2 ./selftest_one.sh 2>&1)
+rm -f "$list"
+echo "$out"
+if echo "$out" | grep -q '^MISSED'; then exit 1; fi
+exit 0
